@@ -925,6 +925,8 @@ class Oracle(object):
         if mech == "psk13":
             # RFC 8446: the PSK is bound to the hash, the suite is negotiated anew; a PSK can only be used with a
             # key-exchange mode both sides accept
+            if cap["sh"] is not None and suite_hash(cap["sh"]["suite"]) != suite_hash(s["suite"]):
+                inc.append("prf-hash-differs")
             if not [m for m in obs["ccfg"].psk_modes if m in scfg.psk_modes]:
                 inc.append("no-common-psk-mode")
                 self.ctx.count("observation:tls13-no-common-psk-mode-gives-handshake_failure-instead-of-full-handshake"
@@ -1025,6 +1027,16 @@ class Oracle(object):
                 ctx.violation("c13:resumed-parameters-differ:" + diffs[0],
                               "resumed %s connection differs from the original session in %s" % (vname, diffs),
                               rep({"rule": "R1b", "diffs": diffs}))
+        # R1b': a connection that is NOT resumed has exactly the client identity proven in THIS handshake
+        if obs["both"] and not really_resumed:
+            scfg0 = h.servers[obs["srv"]]["cfg"]
+            psk_used = ver >= (3, 4) and cap["sh"] is not None and cap["sh"]["psk"] is not None
+            proven = CID[obs["ccfg"].cert] if (scfg0.req_cert and obs["ccfg"].cert and not psk_used) else None
+            if obs["sview"]["cid"] != proven:
+                ctx.violation("c13:non-resumed-connection-inherits-client-identity",
+                              "%s: the handshake was not resumed (offered %s credential: %s %s) and the client proved identity %s "
+                              "in it, but the server's session reports client identity %s"
+                              % (vname, mech, status, reasons, proven, obs["sview"]["cid"]), rep({"rule": "R1b'"}))
         # R2: both ends agree on `resumed`
         if obs["both"] and obs["cr"] != obs["sr"]:
             if ver >= (3, 4) and obs["cr"] and not obs["sr"]:
@@ -1349,6 +1361,41 @@ def scenario_client_cert(h, ver, mech, cert):
     h.handshake(s, c2, offer=j2)
 
 
+def scenario_declined_identity(h, ver, mech, how, req_later=True):
+    """first connection WITH a client certificate, then a DECLINED credential WITHOUT one: the full handshake
+    that follows must not carry the old identity"""
+    ciphers = None
+    if how == "hash" and ver >= (3, 4):
+        ciphers = ["aes256gcm", "aes128gcm"]
+    scfg, ccfg = base_cfgs(ver, mech, life=100, age=100, cap=3, req_cert=True, ciphers=ciphers)
+    ccfg.cert = "client_rsa"
+    if how == "hash":
+        ccfg.ciphers = ["aes256gcm"] if ver >= (3, 3) else ["aes256"]
+    s = h.new_server(scfg)
+    c0 = h.handshake(s, ccfg)
+    j = last_session(h)
+    if j is None:
+        return
+    h.close(c0.k, "clean")
+    c2 = CliCfg.from_json(ccfg.to_json())
+    c2.cert = None
+    if how == "expired":
+        h.tick("server", 101)
+    elif how == "hash":
+        c2.ciphers = ["aes128gcm"] if ver >= (3, 3) else ["aes128"]
+    elif how == "rotated":
+        h.set_server(s, keys=[K[3]])
+    elif how == "evicted":
+        h.cache_fill(s, 3)
+    elif how in TAMPER_KINDS:
+        if not h.tamper(j, how, 9):
+            return
+    if not req_later:
+        h.set_server(s, req_cert=False)
+    h.handshake(s, c2, offer=j)
+    h.handshake(s, c2, offer=j)
+
+
 def scenario_two_servers(h, ver, mech):
     """a session of server B (other ticket key, other cache) offered to server A and back"""
     scfg, ccfg = base_cfgs(ver, mech)
@@ -1433,6 +1480,13 @@ def scripted(ctx):
             if mech in ("id", "both"):
                 for n1, n2 in ([(2, 1), (1, 1), (3, 0)] if thorough else [(2, 1)]):
                     go(scenario_evict, ver, mech, n1, n2)
+            hows = ["expired", "hash"] + (["rotated", "flip_tag", "foreign"] if mech != "id" else ["evicted"])
+            for how in hows:
+                if mech == "both" and not thorough and how not in ("expired", "rotated"):
+                    continue
+                go(scenario_declined_identity, ver, mech, how, True)
+                if thorough or how in ("expired", "hash"):
+                    go(scenario_declined_identity, ver, mech, how, False)
             if mech != "both" or thorough:
                 go(scenario_two_servers, ver, mech)
                 for cert in (["client_rsa", "client_ecdsa"] if thorough else ["client_rsa"]):
@@ -1477,8 +1531,8 @@ def random_history(ctx, idx):
     h = History(ctx, "random-%d-%s-%s" % (idx, ver, mech))
     h.clock.install()
     try:
-        scfg, ccfg = base_cfgs(ver, mech, life=life, cap=cap, age=age, req_cert=rng.random() < 0.3)
-        if rng.random() < 0.3:
+        scfg, ccfg = base_cfgs(ver, mech, life=life, cap=cap, age=age, req_cert=rng.random() < 0.4)
+        if rng.random() < 0.4:
             ccfg.cert = rng.choice(["client_rsa", "client_ecdsa"])
         if ver >= (3, 4) and rng.random() < 0.2:
             psk = [(b"ext-id-%d" % idx, bytes([idx % 250 + 1]) * 32, rng.choice(["sha256", "sha384"]))]
@@ -1547,7 +1601,7 @@ def random_history(ctx, idx):
                 elif which < 0.8:
                     h.set_server(s, ems=rng.random() < 0.5, etm=rng.random() < 0.5)
                 elif which < 0.9:
-                    cur.cert = rng.choice([None, "client_rsa"])
+                    cur.cert = rng.choice([None, None, "client_rsa", "client_ecdsa"])
                 else:
                     cur = CliCfg.from_json(ccfg.to_json())
     finally:
